@@ -171,7 +171,7 @@ def main(tier, seed):
                 tooltier.rename_variants(prog, rng)
             if i % 6 == 1:
                 tooltier.underscore_fields(prog, rng)
-            twin = tooltier.same_name_namespaced(prog, rng) if i % 6 == 4 else 0
+            twin = tooltier.same_name_namespaced(prog, rng) if (i % 6 == 4 and b == "cpp") else 0          # (backends without namespaces: C15's F56 probe)
             ncfg = tooltier.add_cfgs(prog, rng) if i % 4 == 2 else 0
             emit_rust.assign_abi_names(prog)
             d = toolrun.fresh_dir(toolrun.workdir("c09", "p%d_%s" % (i, b)))
